@@ -32,3 +32,7 @@ func H_C03_raw(v *V) {
 		v.ObserveStr("err", err.Error())
 	}
 }
+
+func init() {
+	vHarnesses["H_C03_raw"] = H_C03_raw
+}
